@@ -731,8 +731,21 @@ func (g *G) Doc(p *Path) *DNode {
 		g.DocKind = "free"
 		d = Trim(g.FreeDoc(4), MaxDocNodes)
 	}
-	if !g.O.NoDeepDocs && (g.recs == 0 || (g.recs == 1 && !p.HasFilter())) && Uniform(g.T, "stretch", 250) == 0 {
-		d = g.Stretch(d)
+	if !g.O.NoDeepDocs && Uniform(g.T, "stretch", 250) == 0 {
+		// only where the cost stays linear in the array length: no filter at all (at most one '..'),
+		// or a single un-nested filter without '$'-rooted operands and no '..' - a filter inside a
+		// filter, or a '$' operand that fans out, over a thousand members is minutes of work
+		filters := 0
+		p.Walk(func(q *Path) {
+			for i := range q.Steps {
+				if q.Steps[i].Kind == KFilter {
+					filters++
+				}
+			}
+		})
+		if (filters == 0 && g.recs <= 1) || (filters == 1 && g.recs == 0 && !p.HasDollarOperand()) {
+			d = g.Stretch(d)
+		}
 	}
 	return d
 }
@@ -798,7 +811,10 @@ func (g *G) Opaquify(d *DNode) *DNode {
 				// the sub-document stays what it is, behind a pointer / an Accessor / as raw JSON text
 				return Wrap(WrapTags[g.intn("wraptag", len(WrapTags))], n)
 			}
-			if last == "" || g.chance("newtag", newTagPct) {
+			if IsZeroSizeTag(last) && g.chance("zerosizefamily", 60) {
+				// another zero-size value of a different type: same address, different value
+				last = ZeroSizeTags[g.intn("zerosizetag", len(ZeroSizeTags))]
+			} else if last == "" || g.chance("newtag", newTagPct) {
 				last = OpaqueTags[g.intn("tag", len(OpaqueTags))]
 			}
 			return Opaque(last)
